@@ -120,18 +120,24 @@ Proof. exact C05_proofs.wrong_bucket_rejected_lemma. Qed.
 (* Concurrency, ALL schedules (Model/NativeConc.v; proofs in Proofs/C05_conc_inv.v, C05_hom.v, C05_conc.v)   *)
 (* ====================================================================================================== *)
 (* Setting: zmachine = the native-only histogram of histogram.go as a Base.Conc step machine with integer counters:
-   threads run Observe v (any float: NaN, +-0, +-Inf, ...) and Write; one machine step per sync/atomic operation,
-   mutex operation, sync.Map operation or Gosched, in the order the code performs them; limitBuckets with the
+   threads run Observe v (any float: NaN, +-0, +-Inf, ...), Write, and -- for the reset strategy -- NFire (the timer
+   goroutine: run one pending time.AfterFunc callback, i.e. the scheduled reset(), if there is one) and NAdvance d (the
+   injected clock h.now moves on by d ns); one machine step per sync/atomic operation, mutex operation, sync.Map
+   operation or Gosched, in the order the code performs them; limitBuckets under h.mtx with maybeReset
+   (MinResetDuration > 0: reset now if due -- resetCounts(cold), repeat the observation into it, SwapUint64 of
+   countAndHotIdx, cool-down wait, resetCounts(formerly hot), lastResetTime -- else schedule reset() once), the
    zero-bucket widening and the bucket-width doubling (flip, cool-down wait, addAndResetCounts, per-bucket merge into
-   the hot counts) under h.mtx; Write's flip, cool-down, reads, addAndResetCounts and deferred merge.
-   Every theorem quantifies over ALL configurations g (schema, thresholds, bucket limit), ALL program lists progs
-   (any number of threads, any calls, any values) and ALL schedules sched; c is the configuration reached.
-   NOT modelled / NOT proved here: the reset strategy (NativeHistogramMinResetDuration > 0, timer), classic buckets
-   (C02), exemplars; that every counted value lies in the bucket exposed for it (containment) and WHICH observations
-   a Write counts (only how many) -- see the `_partial` names and checks/C05.json. *)
+   the hot counts); the timer's reset() (lock, resetCounts(cold), swap, cool-down, resetCounts, unlock); Write's flip,
+   cool-down, reads, addAndResetCounts and deferred merge.
+   Every theorem quantifies over ALL configurations g (schema, thresholds, bucket limit, MinResetDuration), ALL
+   program lists progs (any number of threads, any calls, any values, any clock advances and timer polls) and ALL
+   schedules sched; c is the configuration reached.  Theorems that carry the hypothesis g_min_reset g = 0 speak of the
+   histogram without reset (the reset code is then never entered, C05_conc.NoR_reachable); the others hold with resets.
+   NOT modelled / NOT proved here: classic buckets (C02), exemplars, real time (the clock is an oracle the program
+   moves); see the `_partial` names and checks/C05.json. *)
 From Verif Require Import Base.Conc Model.NativeConc Proofs.C05_conc Proofs.C05_cont Proofs.C05_rt.
 
-(* (a) Every completed Write is self-consistent and no Write panics: no population is negative, bucket keys are
+(* (a) Every completed Write -- with or without resets racing with it -- is self-consistent and no Write panics: no population is negative, bucket keys are
    strictly increasing, and the sample count is the zero bucket plus all positive and negative populations plus a
    non-negative remainder nan_count E (the NaN observations counted: E is a list of no_count values whose non-NaN
    members are exactly as many as zero bucket + populations). *)
@@ -146,7 +152,7 @@ Theorem native_conc_scrape_consistent : forall (g : NativeHist.config) (progs : 
         no_zc Z o + zsum (map snd (no_pos Z o)) + zsum (map snd (no_neg Z o)) + nan_count E = no_count Z o.
 Proof. exact C05_conc.writes_ok_Z. Qed.
 
-(* (b, partial) Conservation at quiescence: once every call of every thread has returned -- whatever widenings,
+(* (b, partial) Conservation at quiescence, no reset configured: once every call of every thread has returned -- whatever widenings,
    halvings and Writes raced with the observers -- the mutex is free, the ticket counter and the hot count are the
    number N of Observe calls of the program, the hot set satisfies count = zero bucket + populations + NaN with
    non-negative populations and increasing keys, and the cold set is drained (count 0, zero bucket 0, every
@@ -155,6 +161,7 @@ Proof. exact C05_conc.writes_ok_Z. Qed.
    PARTIAL: containment (each observation in a bucket that contains it at the exposed schema and threshold) is
    not proved for the concurrent machine; it is proved for the sequential model (C04, T2 above) and tested. *)
 Theorem native_conc_quiescent_accounts_partial : forall (g : NativeHist.config) (progs : list (list nop)) (sched : list Z),
+  g_min_reset g = 0 ->
   let c := run_sched zmachine (init_config zmachine (ninit Z 0 g) progs) sched in
   all_done zmachine c = true ->
   let N := C05_conc.nobs_progs progs in
@@ -167,7 +174,35 @@ Theorem native_conc_quiescent_accounts_partial : forall (g : NativeHist.config) 
   ns_cnt Z cold = 0 /\ ns_zb Z cold = 0 /\ (forall p, In p (ns_pos Z cold ++ ns_neg Z cold) -> snd p = 0).
 Proof. exact C05_conc.quiescent_Z. Qed.
 
-(* (c) No reachable configuration is a deadlock: whenever some call is unfinished some thread can take a step (the
+(* (b-reset) Conservation RELATIVE TO THE LAST COMPLETED RESET, for every MinResetDuration.  Ldg = the ledger of the
+   run (Model/NativeConc.v `ledger`): the values of the Observe calls that took their ticket after the last executed
+   SwapUint64 of a reset; a maybeReset swap opens the new ledger with the value of the call that triggered it (the code
+   repeats that observation into the new hot set).  In EVERY reachable configuration the ticket counter is |Ldg| ... *)
+Theorem native_conc_tickets_since_reset : forall (g : NativeHist.config) (progs : list (list nop)) (sched : list Z),
+  let c := run_sched zmachine (init_config zmachine (ninit Z 0 g) progs) sched in
+  nh_tk Z (sh c) = zlen (ledger Z 0 Z.add (fun _ => 1) (fun x => x) (init_config zmachine (ninit Z 0 g) progs) sched []).
+Proof. exact C05_conc.tickets_since_reset_Z. Qed.
+
+(* ... and once every call has returned (resets, widenings, halvings and Writes having raced with the observers in any
+   way) the mutex is free, the hot count is N = |Ldg| = the number of Observe calls ticketed after the last reset swap,
+   the hot set satisfies count = zero bucket + populations + NaN with non-negative populations and increasing keys, and
+   the cold set is drained: nothing ticketed after the last reset was lost or duplicated, nothing older survived.
+   PARTIAL: only the NUMBER of counted values is tied to the ledger, not the values themselves (for MinResetDuration = 0
+   the values are: native_conc_quiescent_values_partial). *)
+Theorem native_conc_quiescent_since_reset_partial : forall (g : NativeHist.config) (progs : list (list nop)) (sched : list Z),
+  let c := run_sched zmachine (init_config zmachine (ninit Z 0 g) progs) sched in
+  all_done zmachine c = true ->
+  let N := zlen (ledger Z 0 Z.add (fun _ => 1) (fun x => x) (init_config zmachine (ninit Z 0 g) progs) sched []) in
+  let h := sh c in let hot := nget Z h (nh_hot Z h) in let cold := nget Z h (negb (nh_hot Z h)) in
+  nh_mtx Z h = false /\ nh_tk Z h = N /\ ns_cnt Z hot = N /\
+  (forall p, In p (ns_pos Z hot ++ ns_neg Z hot) -> 0 <= snd p) /\ 0 <= ns_zb Z hot /\
+  keys_increasing (ns_pos Z hot) = true /\ keys_increasing (ns_neg Z hot) = true /\
+  (exists E : list f64, zlen E = N /\
+     ns_zb Z hot + zsum (map snd (ns_pos Z hot)) + zsum (map snd (ns_neg Z hot)) + nan_count E = N) /\
+  ns_cnt Z cold = 0 /\ ns_zb Z cold = 0 /\ (forall p, In p (ns_pos Z cold ++ ns_neg Z cold) -> snd p = 0).
+Proof. exact C05_conc.quiescent_since_reset_Z. Qed.
+
+(* (c) No reachable configuration (resets included) is a deadlock: whenever some call is unfinished some thread can take a step (the
    only blocking operation is Mutex.Lock on a held mutex, and a held mutex has exactly one holder, which is never
    blocked) ... *)
 Theorem native_conc_no_deadlock : forall (g : NativeHist.config) (progs : list (list nop)) (sched : list Z),
@@ -186,17 +221,25 @@ Theorem native_conc_spin_exits_partial : forall (g : NativeHist.config) (progs :
   C05_conc.F cold (thr c) = 0 -> Z.of_nat (length (ns_cnt (list f64) (nget (list f64) (sh c) cold))) = count.
 Proof. exact C05_conc.spin_exits_L. Qed.
 
+(* the same for the cool-down of a reset (after its swap, on the formerly hot set) *)
+Theorem native_conc_reset_spin_exits_partial : forall (g : NativeHist.config) (progs : list (list nop)) (sched : list Z),
+  let c := run_sched lmachine (init_config lmachine (C05_conc.linit g) progs) sched in
+  forall i t o rk cold count inv, nth_error (thr c) i = Some t -> t_cur t = Some (o, rCool (list f64) rk cold count, inv) ->
+  C05_conc.F cold (thr c) = 0 -> Z.of_nat (length (ns_cnt (list f64) (nget (list f64) (sh c) cold))) = count.
+Proof. exact C05_conc.rspin_exits_L. Qed.
+
 (* zmachine is the image of lmachine: same programs, same schedule, counters replaced by their lengths *)
 Theorem native_conc_machines_agree : forall (g : NativeHist.config) (progs : list (list nop)) (sched : list Z),
   run_sched zmachine (init_config zmachine (ninit Z 0 g) progs) sched =
   C05_conc.zcfg (run_sched lmachine (init_config lmachine (C05_conc.linit g) progs) sched).
 Proof. exact C05_conc.zrun. Qed.
 
-(* (b') At quiescence the histogram accounts for every observation ever made, by VALUE: the sample count is the
+(* (b') No reset configured: at quiescence the histogram accounts for every observation ever made, by VALUE: the sample count is the
    number of Observe calls of the program and zero bucket + all populations is the number of its non-NaN
    observations (AV = the values of all Observe calls of the program; on lmachine the hot set's counter IS a
    permutation of AV, C05_conc.quiescent_values_L).  Which bucket each value sits in is the part not proved. *)
 Theorem native_conc_quiescent_values_partial : forall (g : NativeHist.config) (progs : list (list nop)) (sched : list Z),
+  g_min_reset g = 0 ->
   let c := run_sched zmachine (init_config zmachine (ninit Z 0 g) progs) sched in
   all_done zmachine c = true ->
   let h := sh c in let hot := nget Z h (nh_hot Z h) in
@@ -206,7 +249,7 @@ Theorem native_conc_quiescent_values_partial : forall (g : NativeHist.config) (p
 Proof. exact C05_conc.quiescent_values_Z. Qed.
 
 (* ---------------- containment under concurrency (Proofs/C05_cont.v) ---------------- *)
-(* (b'') Quiescence, with containment: once every call has returned, the integer state of the code's machine is the
+(* (b'') Quiescence, with containment, no reset configured: once every call has returned, the integer state of the code's machine is the
    length-image (C05_conc.zsh) of a value-carrying state hl whose hot set satisfies: its counter is a permutation of
    AV = the values of all Observe calls; its zero bucket and its buckets together hold exactly the non-NaN values of
    AV; and every value held by bucket k of either sign lies in bucket k at the exposed schema (C05_run.in_key: C04's
@@ -218,7 +261,7 @@ Proof. exact C05_conc.quiescent_values_Z. Qed.
    known finding subnormal-widen); and, as in the checker, a regular bucket may hold values that a LATER wider
    threshold also covers. *)
 Theorem native_conc_quiescent_contained_partial : forall (g : NativeHist.config) (progs : list (list nop)) (sched : list Z),
-  valid_config g ->
+  valid_config g -> g_min_reset g = 0 ->
   let c := run_sched zmachine (init_config zmachine (ninit Z 0 g) progs) sched in
   all_done zmachine c = true ->
   exists hl : nsh (list f64), sh c = C05_conc.zsh hl /\
@@ -230,7 +273,20 @@ Theorem native_conc_quiescent_contained_partial : forall (g : NativeHist.config)
       in_key (ns_sch (list f64) hot) k sg v = true.
 Proof. exact C05_cont.quiescent_contained_Z. Qed.
 
-(* (a') Every completed Write, racing or not: the exposition is the length-image (C05_conc.zout) of a value-carrying
+(* (b''-reset) With resets (any MinResetDuration): at quiescence the integer state is the length-image of a
+   value-carrying state whose hot buckets contain their values at the exposed schema (a reset returns both sets to the
+   configured schema and threshold).  PARTIAL as above (zero bucket), and which values these are is not stated. *)
+Theorem native_conc_quiescent_contained_reset_partial : forall (g : NativeHist.config) (progs : list (list nop)) (sched : list Z),
+  valid_config g ->
+  let c := run_sched zmachine (init_config zmachine (ninit Z 0 g) progs) sched in
+  all_done zmachine c = true ->
+  exists hl : nsh (list f64), sh c = C05_conc.zsh hl /\
+    let hot := nget (list f64) hl (nh_hot (list f64) hl) in
+    forall sg k cell v, In (k, cell) (if sg : bool then ns_neg (list f64) hot else ns_pos (list f64) hot) -> In v cell ->
+      in_key (ns_sch (list f64) hot) k sg v = true.
+Proof. exact C05_cont.quiescent_contained_gen_Z. Qed.
+
+(* (a') Every completed Write, racing or not, with or without resets: the exposition is the length-image (C05_conc.zout) of a value-carrying
    exposition ol that is self-consistent (good_out: its zero bucket and buckets hold exactly the non-NaN members of a
    list E of no_count values) and in which every value held by bucket k lies in bucket k at the exposed schema. *)
 Theorem native_conc_scrape_contained_partial : forall (g : NativeHist.config) (progs : list (list nop)) (sched : list Z),
@@ -251,9 +307,10 @@ Proof. exact C05_cont.writes_contained_Z. Qed.
      with multiplicity (sub A B: A ++ extra is a permutation of B);
    - E <= MAY: E is contained in the values of the Observe calls invoked before w returned, finished (hist) or still
      running in some thread (Ub c (c_res w)).
-   Multisets of VALUES (two calls observing the same value are not distinguished).  No reset is configured in the
-   machine. *)
+   Multisets of VALUES (two calls observing the same value are not distinguished).  MinResetDuration = 0 (with a reset
+   the lower bound is false by design: a reset forgets finished observations). *)
 Theorem native_conc_real_time_sandwich : forall (g : NativeHist.config) (progs : list (list nop)) (sched : list Z),
+  g_min_reset g = 0 ->
   let c := run_sched lmachine (init_config lmachine (C05_conc.linit g) progs) sched in
   forall w out, In w (Conc.hist c) -> c_ret w = NOut (list f64) out ->
   exists E : list f64, C05_rt.goodE out E /\
@@ -263,6 +320,7 @@ Proof. exact C05_rt.rt_sandwich_L. Qed.
 (* ... and once all calls have returned MAY is read off the history alone: the values of the Observe calls with
    c_inv < c_res w *)
 Theorem native_conc_real_time_sandwich_done : forall (g : NativeHist.config) (progs : list (list nop)) (sched : list Z),
+  g_min_reset g = 0 ->
   let c := run_sched lmachine (init_config lmachine (C05_conc.linit g) progs) sched in
   all_done lmachine c = true ->
   forall w out, In w (Conc.hist c) -> c_ret w = NOut (list f64) out ->
